@@ -10,6 +10,7 @@ import (
 	"fmt"
 	"math/rand"
 	"os"
+	"runtime/debug"
 	"strings"
 	"testing"
 
@@ -76,7 +77,7 @@ func safeRun(ex *fam.Exec) (out *fam.Outcome) {
 			if fmt.Sprintf("%T", r) == "core.killSentinel" {
 				panic(r)
 			}
-			out = &fam.Outcome{Panic: fmt.Sprint(r), Canon: "panic: " + fmt.Sprint(r)}
+			out = &fam.Outcome{Panic: fmt.Sprint(r) + "\n" + string(debug.Stack()), Canon: "panic: " + fmt.Sprint(r)}
 		}
 	}()
 	return ex.Run()
@@ -140,8 +141,9 @@ func run(t *rapid.T, prop string) {
 		out := safeRun(ex)
 		tr.Build = append(tr.Build, ex.Desc)
 		if out.Panic != "" {
-			core.Violation(t, "C01:panic", "operation panicked: "+ex.Desc+": "+out.Panic, tr)
-			return
+			// a panic of an operation run on its own is C10's business, not
+			// C01's or C11's: it is a result like any other (and compared as such)
+			core.Probe("operation-panicked-sequentially")
 		}
 		add(out.New)
 		if !checkI1("after build op " + ex.Desc) {
@@ -276,8 +278,7 @@ func run(t *rapid.T, prop string) {
 	}
 	for _, r := range records {
 		if r.conc.Panic != "" {
-			core.Violation(t, prop+":panic", "operation panicked: "+r.Desc+": "+r.conc.Panic, tr)
-			return
+			core.Probe("operation-panicked-under-schedule")
 		}
 	}
 	if !checkI1("after all clients finished") {
@@ -336,6 +337,11 @@ func run(t *rapid.T, prop string) {
 		alone := safeRun(r.ex)
 		if alone.Canon != r.conc.Canon {
 			tr.Conc, tr.Alone = clip(r.conc.Canon), clip(alone.Canon)
+			if r.conc.Panic != "" && alone.Panic == "" {
+				tr.Detail = r.conc.Panic
+				core.Violation(t, "C11:I2:panic-only-when-concurrent", fmt.Sprintf("%s (client %d) panicked under the schedule but not when run alone: %s", r.Desc, r.Client, strings.SplitN(r.conc.Panic, "\n", 2)[0]), tr)
+				return
+			}
 			core.Violation(t, "C11:I2:result-differs", fmt.Sprintf("%s (client %d) returned a different result when run concurrently than when run alone", r.Desc, r.Client), tr)
 			return
 		}
